@@ -83,6 +83,8 @@ def main(pid, argv):
     ck.evaluations = len(data)
     nf = 0
     for idx, ((k, x), il, ml) in enumerate(zip(uniq, impl, model)):
+        if il == "SKIPPED":
+            continue
         ic, mc = C.cls(il), C.cls(ml)
         ck.count("impl:" + ic)
         if ic == "OK" or mc == "OK" or k in ("token-mutation", "valid"):
